@@ -589,9 +589,11 @@ func raceChild(run *mon.Run, name string, timeout time.Duration, env ...string) 
 func C18(run *mon.Run) {
 	run.Rule = "many short concurrent histories (2-8 goroutines x 3-6 operations over all eight methods, valid / wrong / malformed / wrong-length / duplicate shares, in- and out-of-range indices, biased to the t+1 boundary) on one inspector or participant, recorded with an atomic logical clock and checked by porcupine against the documented sequential semantics; direct monitors for EnoughShares monotonicity, signature stability and <= t+1 retained shares; GOMAXPROCS in {1,2,4,16} with Gosched jitter; the same workload under the race detector; shape = (n, #clients, #ops bucket, #overlapping mutator pairs, #retained)"
 	run.Assumptions = []string{"interleavings are those the Go scheduler produced; absence of a bad history is not a proof", "where the documentation leaves the precedence of duplicated-signer vs already-enough open, both results are accepted"}
-	run.Builds = append(run.Builds, "default")
-	c18Core(run)
+	// both legs run in child processes: a missing lock shows as a process-fatal
+	// "concurrent map writes" in the plain build and as race reports in the -race build
+	run.RunChild(os.Getenv("VERIF_BIN"), "c18core", "default", 40*time.Minute)
 	raceChild(run, "c18core", 40*time.Minute, "VERIF_C18_SCALE=0.25")
+	run.Require(run.Counter("default.histories") > 0, "default build observed no history")
 	run.Require(run.Counter("race.histories") > 0, "race build observed no history")
 }
 
